@@ -1,5 +1,7 @@
 package json
 
+import "time"
+
 type jCycP struct {
 	Next *jCycP
 	V    int8
@@ -113,6 +115,12 @@ type jCycS struct {
 	Kids []*jCycS
 }
 
+type jDur struct {
+	D time.Duration    `json:"d"`
+	P *time.Duration   `json:"p"`
+	N []time.Duration  `json:"n"`
+}
+
 type jHeader map[string][]string
 
 type jDecAll struct {
@@ -163,6 +171,10 @@ func c06Target(mode int) any {
 		return new(*jNested)
 	case 15:
 		return new(jNumRaw)
+	case 16:
+		return new(time.Duration)
+	case 17:
+		return new(jDur)
 	}
 	return nil
 }
@@ -200,6 +212,10 @@ func c06Doc(mode int) string {
 		return `{"x":1,"pn":null}`
 	case 15:
 		return `{"N":-1.5e3,"r":[1, {}]}`
+	case 16:
+		return `"1m30s"`
+	case 17:
+		return `{"d":"2h","p":"5ms","n":[7, "1s"]}`
 	}
 	return ""
 }
@@ -261,4 +277,57 @@ func vfH_c06_trunc() {
 // warm-up (runs once before the per-path snapshot): builds the target's codec so that paths do not rebuild it
 func vfWarm_c06() {
 	Unmarshal([]byte("null"), c06Target(vfMode))
+}
+
+// H06-seq: state carried between calls (pooled scratch buffers, codec caches): a call that FAILS must leave nothing
+// behind that changes a later call. Step 1 (vfMode) is an encode or decode that returns an error half-way through a
+// container; step 2 encodes and decodes values of the specialised map types and a struct, with flags vfFlags, and must
+// produce exactly what a fresh process produces.
+func vfH_c06_seq() {
+	flags := AppendFlags(vfFlags)
+	var err error
+	switch vfMode {
+	case 0:
+		_, err = Append(nil, map[string]RawMessage{"a": RawMessage(`1`), "b": RawMessage(`{`), "c": RawMessage(`2`)}, flags)
+	case 1:
+		_, err = Append(nil, map[string]any{"a": 1, "b": jMarshalerV{fail: true}, "c": "x"}, flags)
+	case 2:
+		_, err = Append(nil, map[string][]string{"a": {"x"}, "b": nil}, flags)
+		_, err = Append(nil, jMarsh{M: jMarshalerV{fail: true}}, flags)
+	case 3:
+		_, err = Append(nil, []any{map[string]string{"k": "v"}, map[string]RawMessage{"r": RawMessage(`]`)}}, flags)
+	case 4:
+		var m map[string][]string
+		err = Unmarshal([]byte(`{"a":["x","y"],"b":["z",1]}`), &m)
+	case 5:
+		var m map[string]any
+		err = Unmarshal([]byte(`{"a":{"b":[1,2,{"c":tru}]}}`), &m)
+	case 6:
+		var x jNested
+		err = Unmarshal([]byte(`{"x":1,"z":2,"pn":{"Y":5}}`), &x)
+	}
+	vfAssert(err != nil, "step-1-fails-as-intended")
+
+	// step 2
+	check := func(v any, want string) {
+		got, err := Append(nil, v, flags|SortMapKeys)
+		vfAssert(err == nil, "step-2-encode-ok")
+		if err == nil {
+			vfAssert(string(got) == want, "step-2-bytes")
+		}
+	}
+	check(map[string]string{"x": "y", "a": "b"}, `{"a":"b","x":"y"}`)
+	check(map[string]bool{"t": true}, `{"t":true}`)
+	check(map[string][]string{"l": {"1"}, "k": nil}, `{"k":null,"l":["1"]}`)
+	check(map[string]any{"n": nil, "s": "v"}, `{"n":null,"s":"v"}`)
+	check(map[string]RawMessage{"r": RawMessage(`[ ]`)}, `{"r":[]}`)
+	check(map[int8]int8{2: 3}, `{"2":3}`)
+	check(jBasic{A: 7, B: "q"}, `{"a":7,"b":"q"}`)
+	var m1 map[string][]string
+	err = Unmarshal([]byte(`{"a":["x"],"b":null}`), &m1)
+	vfAssert(err == nil && len(m1) == 2 && len(m1["a"]) == 1 && m1["a"][0] == "x" && m1["b"] == nil, "step-2-decode-map")
+	var n1 jNested
+	err = Unmarshal([]byte(`{"x":4,"pn":{"Y":"s"}}`), &n1)
+	vfAssert(err == nil && n1.X == 4 && n1.JEmbP == nil && n1.Pn != nil && n1.Pn.Y == "s", "step-2-decode-struct")
+	vfCover("done")
 }
